@@ -12,10 +12,19 @@ def _worker(job):
         from contracts.registry import build
         prog = Program(overrides=override or None)
         reg = build(variant)
-        c = reg.get(qual)
-        if c is None:
-            return {'qual': qual, 'error': f'no contract registered for {qual}', 'results': [], 'fatal': True}
-        rep = verify_function(prog, reg, c, timeout_ms=timeout_ms)
+        if qual.endswith('~rel'):
+            # relational (2-run product) contract: vf/relational.py
+            from .relational import verify_relational
+            from contracts.relational import specs
+            c = specs().get(qual)
+            if c is None:
+                return {'qual': qual, 'error': f'no relational contract registered for {qual}', 'results': [], 'fatal': True}
+            rep = verify_relational(prog, reg, c, timeout_ms=timeout_ms)
+        else:
+            c = reg.get(qual)
+            if c is None:
+                return {'qual': qual, 'error': f'no contract registered for {qual}', 'results': [], 'fatal': True}
+            rep = verify_function(prog, reg, c, timeout_ms=timeout_ms)
         props_all = sorted({p for ps in c.props.values() for p in ps})
         out = {'qual': qual, 'error': rep.error, 'vacuous': rep.vacuous, 'paths': rep.paths, 'returns': rep.returns,
                'wall': rep.wall, 'assumptions': sorted(rep.assumptions), 'results': [], 'effects': getattr(rep, 'effects', []),
@@ -34,6 +43,8 @@ def _worker(job):
             elif o.kind == 'pre':
                 callee = base.split('[', 1)[1].split(']')[0] if '[' in base else ''
                 label = base; props = c.props.get('pre:' + callee, props_all)
+            elif o.kind == 'rel':
+                label = o.info.get('label', base); props = props_all
             else:
                 label = base; props = props_all
             out['results'].append({'name': o.name, 'kind': o.kind, 'label': label, 'props': list(props), 'status': r.status,
